@@ -345,6 +345,34 @@ fn list_sweep(cfg: &Cfg, rep: &mut Report) {
 }
 
 // ------------------------------------------------------------------ cap
+/// A capped token whose cap was never set has no room at all: every mint is refused until a cap is named.
+fn cap_never_set(cfg: &Cfg, rep: &mut Report) {
+    let h = 3_900u64;
+    if cfg.shard != 3 % cfg.nshards || !cfg.runs(h) {
+        return;
+    }
+    rep.begin_history(h);
+    let w = World::new(100, 16);
+    let e = &w.env;
+    let u = w.accounts(2);
+    let c = e.register(crate::contracts::tokens::TokCapLate, ());
+    e.mock_all_auths();
+    for a in [0i128, 1, 1000, i128::MAX] {
+        let got: Result<(), Fail> = invoke(e, &c, "mint", args!(e, u[0], a));
+        rep.evaluations += 1;
+        rep.case(format!("capped/cap-never-set/mint/{}", tag(&got)));
+        rep.check("cap", got.is_err(), "C16/cap/capped-wrapper/mint/passed-without-any-cap-set", || format!("mint of {a} succeeded on a capped token whose cap was never set"));
+    }
+    let ts: i128 = invoke(e, &c, "total_supply", args!(e)).must("total_supply");
+    rep.check("cap", ts == 0, "C16/cap/capped-wrapper/mint/passed-without-any-cap-set", || format!("total supply {ts} with no cap ever set"));
+    invoke::<()>(e, &c, "set_cap", args!(e, 10i128)).unwrap();
+    let ok: Result<(), Fail> = invoke(e, &c, "mint", args!(e, u[0], 10i128));
+    let over: Result<(), Fail> = invoke(e, &c, "mint", args!(e, u[1], 1i128));
+    rep.check("ref", ok.is_ok() && over.is_err(), "C16/ref/capped-wrapper/mint/outcome", || format!("cap 10: mint 10 -> {ok:?}, then mint 1 -> {over:?}"));
+    rep.count("cap_never_set");
+    rep.end_history();
+}
+
 fn capped(cfg: &Cfg, rep: &mut Report, h: u64) {
     let mut rng = Rng::for_history(cfg.seed, "C16", cfg.shard, h);
     rep.begin_history(h);
@@ -509,7 +537,8 @@ fn real_upgrade(cfg: &Cfg, rep: &mut Report, h: u64) {
 }
 
 pub fn run(cfg: &Cfg, rep: &mut Report) {
-    rep.rule = "(a) pausable and fungible-pausable examples: histories of every pausable entry point with pause/unpause by owner and strangers, signed or not; a wrapper whose entry points carry an owner guard and a pause guard stacked in both orders; (b) allow/block lists on wrappers wiring all five overridden entry points and on the two examples: random histories with list toggles and ledger jumps of up to 600 000 (beyond every lifetime extension the library asks for) plus an exhaustive sweep entry point x assignment of list status to (from, to, spender); (c) fungible-capped example: mints around cap-supply and i128 overflow for caps {0,1,1000,2^70,MAX-1,MAX}; (d) migration: natively registered UpgradeableMigratable contract (flag set as upgrade sets it) and the v1 example upgraded by the working tree's macro to the repository's prebuilt v2 wasm. Distinct case = (mechanism, entry point, gate/list assignment vector, outcome).".into();
+    rep.rule = "(a) pausable and fungible-pausable examples: histories of every pausable entry point with pause/unpause by owner and strangers, signed or not; a wrapper whose entry points carry an owner guard and a pause guard stacked in both orders; (b) allow/block lists on wrappers wiring all five overridden entry points and on the two examples: random histories with list toggles and ledger jumps of up to 600 000 (beyond every lifetime extension the library asks for) plus an exhaustive sweep entry point x assignment of list status to (from, to, spender); (c) fungible-capped example: mints around cap-supply and i128 overflow for caps {0,1,1000,2^70,MAX-1,MAX}, and a capped wrapper whose cap was never set (no mint passes); (d) migration: natively registered UpgradeableMigratable contract (flag set as upgrade sets it) and the v1 example upgraded by the working tree's macro to the repository's prebuilt v2 wasm. Distinct case = (mechanism, entry point, gate/list assignment vector, outcome).".into();
+    cap_never_set(cfg, rep);
     let nh = cfg.pick(12u64, 80);
     for k in 0..nh {
         if cfg.runs(k) {
